@@ -359,10 +359,26 @@ def check_program(items, form: str, part, defines=(), expanded_items=None, brack
     except Exception as exc:
         add_violation(part, f"assembled-not-executable/{form}", f"assembled subroutine has operands that are not concrete: {exc}", case)
         return
-    amap = structural(instrs, labels, asm, case, part, form)
+    sp = new_part()
+    amap = structural(instrs, labels, asm, case, sp, form)
     if amap is None:
-        # still run the dynamic comparison without a trace map: it tells whether behaviour changed too
-        dynamic(instrs, labels, asm, None, case, part, form)
+        # The structural re-derivation assumes one shape (constant loads right before their consumer).  What the PROPERTY
+        # forbids structurally is: a literal loaded into a register the source names, two literals of one instruction in
+        # one register, a branch that does not land on the labelled instruction.  Any other shape mismatch counts only if
+        # the behaviour differs too (a correct assembler with another layout must not raise an alarm).
+        dp = new_part()
+        dynamic(instrs, labels, asm, None, case, dp, form)
+        hard = [v for v in sp["violations"] if v["fingerprint"].split("/")[2] in
+                ("scratch-register-is-named-by-source", "scratch-register-reused-within-instruction", "branch-target")]
+        keep = sp["violations"] if dp["violations"] else hard
+        if not keep and not dp["violations"]:
+            count(part, "shape-not-recognised-but-equivalent")
+        for v in keep + dp["violations"]:
+            part["violations"].append(v)
+            count(part, "violation:" + v["fingerprint"])
+        for k, n in dp["counters"].items():
+            if not k.startswith("violation:"):
+                count(part, k, n)
         return
     dynamic(instrs, labels, asm, amap, case, part, form)
 
